@@ -73,6 +73,9 @@ def convert_const(name, T, ctx):
 
 def convert(t, var_names, assms, to_real, ctx):
     """Convert term t to Z3 input."""
+    # Names of variables bound by quantifiers in t.
+    bound_names = set()
+
     def rec(t):
         if t.is_var():
             z3_t = convert_const(t.name, t.T, ctx)
@@ -82,20 +85,32 @@ def convert(t, var_names, assms, to_real, ctx):
         elif t.is_forall():
             nm = name.get_variant_name(t.arg.var_name, var_names)
             var_names.append(nm)
+            bound_names.add(nm)
             v = Var(nm, t.arg.var_T)
             z3_v = convert_const(nm, t.arg.var_T, ctx)
-            return z3.ForAll(z3_v, rec(t.arg.subst_bound(v)))
+            body = rec(t.arg.subst_bound(v))
+            if t.arg.var_T == NatType:
+                # Natural numbers are represented by non-negative integers
+                body = z3.Implies(z3_v >= 0, body, ctx)
+            return z3.ForAll(z3_v, body)
         elif t.is_exists():
             nm = name.get_variant_name(t.arg.var_name, var_names)
             var_names.append(nm)
+            bound_names.add(nm)
             v = Var(nm, t.arg.var_T)
             z3_v = convert_const(nm, t.arg.var_T, ctx)
-            return z3.Exists(z3_v, rec(t.arg.subst_bound(v)))
+            body = rec(t.arg.subst_bound(v))
+            if t.arg.var_T == NatType:
+                body = z3.And(z3_v >= 0, body) if ctx is None else z3.And(z3_v >= 0, body, ctx)
+            return z3.Exists(z3_v, body)
         elif t.is_number():
             return t.dest_number()
         elif t.is_implies():
             return z3.Implies(rec(t.arg1), rec(t.arg))
         elif t.is_equals():
+            if isinstance(convert_type(t.arg1.get_type(), ctx), tuple):
+                # == on z3 function declarations compares them syntactically
+                raise Z3Exception("convert: unsupported equality " + repr(t))
             return rec(t.arg1) == rec(t.arg)
         elif t.is_conj():
             return z3.And(rec(t.arg1), rec(t.arg)) if ctx is None else z3.And(rec(t.arg1), rec(t.arg), ctx)
@@ -132,7 +147,7 @@ def convert(t, var_names, assms, to_real, ctx):
             return rec(t.arg1) / rec(t.arg)
         elif t.is_comb('of_nat', 1):
             if t.get_type() == RealType:
-                if t.arg.is_var():
+                if t.arg.is_var() and t.arg.name not in bound_names:
                     if t.arg.name not in to_real:
                         nm = name.get_variant_name("r" + t.arg.name, var_names)
                         var_names.append(nm)
